@@ -63,6 +63,13 @@ SettleObs(S, lab) ==
     LET S1 == Settle(S, cfg, now)
     IN  IF ~AtRest(S1) /\ OptionalFlushPc(S1.sk.pc) /\ NeedsSys(S1) /\ lab \notin SysLabels(S1)
         THEN SettleObs([S1 EXCEPT !.sk.pc = FlushNext(S1.sk.pc)], lab)
+        \* the compression step is followed in its order-insensitive form (QtlRotation!GzAnyLabels)
+        ELSE IF S1.sk.pc = "gzOpenIn"
+        THEN SettleObs([S1 EXCEPT !.sk.pc = "gzAny", !.sk.inOpen = FALSE, !.sk.inClosed = FALSE, !.sk.outOpen = FALSE,
+                                  !.sk.outClosed = FALSE, !.sk.wrote = FALSE], lab)
+        \* ... and is over when nothing is open any more and the next call is not part of it
+        ELSE IF S1.sk.pc = "gzAny" /\ GzAnyQuiet(S1) /\ lab \notin GzAnyLabels(S1)
+        THEN SettleObs([S1 EXCEPT !.sk.pc = "ret"], lab)
         ELSE S1
 
 WRITE_ACTIVE == Lab("write", ACTIVE, NONE, "")
